@@ -18,6 +18,7 @@ LEVEL_TEXT = (
     "the start-up check dispatches only with state_check_now and a true expression; a notification never counts as hold expiry"
     "; the legacy loops satisfy the same hold / hold_false clauses on scripted notification histories; while a hold is pending every wait is armed for exactly the remaining hold time; the released run carries the first event's arguments and guard values on both expiry paths"
     '; the change predicates and the watched set that decide what counts as an evaluation equal their reference definitions; the start-up check with state_check_now is not subject to state_hold_false'
+    '; after an initially true wait expression state_hold_false stays in force; any-change names are not gated by state_hold_false; a false at start-up begins the false period with or without state_check_now (both subsystems)'
 )
 LEVEL_NOTE = "one-step transition relation on the grid now in {before, at, after threshold}; which interleaving of timer expiry and events occurs on a real clock is not decided"
 TECHNIQUE = "abstract interpretation of _check_new_state / one iteration of the trigger loops on a finite model of timer states (clause-wise assertions on the resulting heap and dispatch events)"
